@@ -553,7 +553,10 @@ class EspiritCalib(sp.app.App):
                 AHA += aH @ a
 
             AHA *= sp.prod(img_shape) / kernel_width**img_ndim
+            # Unit-norm start vector per voxel: the first eigenvalue estimate
+            # is then a Rayleigh-type quotient as well (at most 1).
             self.mps = xp.ones(ksp.shape[::-1] + (1,), dtype=ksp.dtype)
+            self.mps /= num_coils**0.5
 
             def forward(x):
                 with sp.get_device(x):
